@@ -35,8 +35,13 @@ where
     cfg["build"] = json!(build);
     let n = cfg["n"].as_u64().unwrap() as usize;
     // the source signal yields the frames of the sig_* events in order
-    let frames: Vec<[S; N]> = ops.iter().map(|op| dec_frame::<S, N>(&op["a"]["x"])).collect();
+    // (cfg.srclen, when present, cuts the source short: later calls read past its end, where a finite
+    // signal yields equilibrium -- the generator puts equilibrium frames into those events)
+    let mut frames: Vec<[S; N]> = ops.iter().map(|op| dec_frame::<S, N>(&op["a"]["x"])).collect();
     let logged: Vec<Value> = frames.iter().map(|f| json!({"x": enc_frame(f)})).collect();
+    if let Some(sl) = cfg["srclen"].as_u64() {
+        frames.truncate(sl as usize);
+    }
     let built = catch(move || {
         let window: Vec<[S::Float; N]> = vec![<[S::Float; N] as dasp_frame::Frame>::EQUILIBRIUM; n];
         signal::from_iter(frames.into_iter()).rms(Fixed::from(window))
@@ -338,9 +343,22 @@ fn gen_rms(rng: &mut Rng, thorough: bool, execs: &mut Vec<Vec<Value>>) {
             let exact = k % 3 == 2;
             let bursty = k % 3 == 1;
             k += 1;
-            let mut ex = vec![json!({"ev":"reset","comp":"rms","cfg":{"n":n,"fmt":fmt,"ch":ch,"via":via}})];
+            let total = 50 * n;
+            // the adaptor over a finite source that is read past its end (every other adaptor run)
+            let srclen = if via == "signal" && k % 8 == 4 { Some(rng.below(total as u64 * 3 / 4 + 1) as usize) } else { None };
+            let mut ex = vec![match srclen {
+                Some(sl) => json!({"ev":"reset","comp":"rms","cfg":{"n":n,"fmt":fmt,"ch":ch,"via":via,"srclen":sl}}),
+                None => json!({"ev":"reset","comp":"rms","cfg":{"n":n,"fmt":fmt,"ch":ch,"via":via}}),
+            }];
             let mut loud = 0i64;
-            for _ in 0..(50 * n) {
+            for i in 0..total {
+                if let Some(sl) = srclen {
+                    if i >= sl {
+                        let z = Value::Array((0..ch).map(|_| json!({"d": [0, 4]})).collect());
+                        ex.push(json!({"ev": if rng.chance(1, 2) {"sig_next"} else {"sig_next_squared"}, "a": {"x": z}}));
+                        continue;
+                    }
+                }
                 // passages: mostly normal level, sometimes a loud burst or a quiet stretch
                 if bursty && rng.chance(1, (2 * n as u64).max(8)) {
                     loud = *rng.pick(&[0, 0, 0, 10, 12, -12, -6, 4]);
@@ -372,6 +390,43 @@ fn gen_rms(rng: &mut Rng, thorough: bool, execs: &mut Vec<Vec<Value>>) {
                 }
                 ex.push(json!({"ev":"current","a":{"z":0}}));
             }
+            execs.push(ex);
+        }
+    }
+}
+
+/// A loud frame whose square absorbs the following tiny one, silence until the loud frame has left the
+/// window (the running sum is then exactly zero although the window still holds the tiny square), a
+/// reset, and a quiet passage at the tiny level: "a reset restores the all-zero state".
+fn gen_rms_absorb(rng: &mut Rng, thorough: bool, execs: &mut Vec<Vec<Value>>) {
+    let cases: &[(&str, i64)] = &[("f32", -14), ("f64", -30), ("i16", 0), ("i32", 0), ("u16", 0), ("i8", 0)];
+    for rep in 0..(if thorough { 5 } else { 1 }) {
+        for &(fmt, texp) in cases {
+            let n = 2 + (rng.below(if thorough { 7 } else { 3 }) as usize + rep) % 7;
+            let ch = 1 + rng.below(2) as usize;
+            let bits = bits_of(fmt);
+            let (loud, tiny, zero): (Value, Value, Value) = match fmt {
+                "f32" => (f32f(-0.75), f32f((2.0f64).powi(texp as i32) as f32), f32f(0.0)),
+                "f64" => (f64f(0.75), f64f((2.0f64).powi(texp as i32)), f64f(0.0)),
+                _ => {
+                    let half = 1i128 << (bits - 1);
+                    let off = if fmt.starts_with('i') { 0 } else { half };
+                    (big(-half + off), big(1 + off), big(off))
+                }
+            };
+            let fr = |v: &Value| Value::Array((0..ch).map(|_| v.clone()).collect());
+            let mut ex = vec![json!({"ev":"reset","comp":"rms","cfg":{"n":n,"fmt":fmt,"ch":ch,"via":"direct"}})];
+            ex.push(json!({"ev":"next_squared","a":{"x":fr(&loud)}}));
+            ex.push(json!({"ev":"next_squared","a":{"x":fr(&tiny)}}));
+            for _ in 0..(n - 1) {
+                ex.push(json!({"ev":"next","a":{"x":fr(&zero)}}));
+            }
+            ex.push(json!({"ev":"rms_reset","a":{"z":0}}));
+            ex.push(json!({"ev":"current","a":{"z":0}}));
+            for _ in 0..(2 * n + 1) {
+                ex.push(json!({"ev": if rng.chance(1, 2) {"next"} else {"next_squared"}, "a":{"x":fr(&tiny)}}));
+            }
+            ex.push(json!({"ev":"current","a":{"z":0}}));
             execs.push(ex);
         }
     }
@@ -458,6 +513,7 @@ fn main() {
             let mut execs = Vec::new();
             if only == "all" || only == "rms" {
                 gen_rms(&mut Rng::new(seed ^ 0x11), thorough, &mut execs);
+                gen_rms_absorb(&mut Rng::new(seed ^ 0x13), thorough, &mut execs);
             }
             if only == "all" || only == "env" {
                 gen_env(&mut Rng::new(seed ^ 0x19), thorough, &mut execs);
